@@ -52,6 +52,7 @@ type jrRequest struct {
 	Missing  []string `json:"missing_params"`
 	InGiven  []string `json:"given_inputs"`
 	InMiss   []string `json:"missing_inputs"`
+	Extreme  bool     `json:"extreme"`
 }
 
 func jsonrunEngine(args []string) error {
@@ -96,8 +97,13 @@ func readClasses(path string) ([]jrClass, []string, error) {
 
 func hasTables(name string) bool { return len(sim.Catalog[name]().Description().Dimensions) > 0 }
 
+var malformedKind int
+
 func malformed(r *rand.Rand, valid []byte) []byte {
-	switch r.Intn(9) {
+	malformedKind++ // every kind of malformation is produced in turn
+	switch malformedKind % 10 {
+	case 9:
+		return []byte("  \n\t ") // whitespace only
 	case 0:
 		return valid[:r.Intn(len(valid))] // truncation
 	case 1:
@@ -131,7 +137,7 @@ func malformed(r *rand.Rand, valid []byte) []byte {
 	}
 }
 
-func buildRequest(r *rand.Rand, name string, cl *jrClass, T int) (doc map[string]interface{}, given, missing, inGiven, inMissing []string) {
+func buildRequest(r *rand.Rand, name string, cl *jrClass, T int) (doc map[string]interface{}, given, missing, inGiven, inMissing []string, extreme bool) {
 	mc := genCase(r, name, 1, 1, 1, T)
 	desc := mc.Desc
 	doc = map[string]interface{}{}
@@ -222,6 +228,21 @@ func buildRequest(r *rand.Rand, name string, cl *jrClass, T int) (doc map[string
 			inputs[k]["Values"] = v[:len(v)-1]
 		}
 	}
+	if cl.Class.Extras {
+		// a superset of the inputs: an undeclared series of a different length, listed FIRST
+		extra := map[string]interface{}{"Name": "noSuchInput", "Values": []float64{1, 2, 3, 4, 5, 6, 7, 8, 9}}
+		inputs = append([]map[string]interface{}{extra}, inputs...)
+	}
+	if cl.Response.Kind == "result" && r.Intn(6) == 0 && len(inputs) > 0 {
+		// extreme but finite values: results may overflow to +Inf / NaN and must still be encoded
+		k := len(inputs) - 1
+		if v, ok := inputs[k]["Values"].([]float64); ok {
+			for i := range v {
+				v[i] = 1e304 * (1 + float64(i))
+			}
+			extreme = true
+		}
+	}
 	if inputs != nil {
 		doc["Inputs"] = inputs
 	}
@@ -261,7 +282,7 @@ func jrGen(args []string) error {
 			}
 			for k := 0; k < per; k++ {
 				T := 1 + r.Intn(6)
-				doc, given, missing, ig, im := buildRequest(r, name, cl, T)
+				doc, given, missing, ig, im, extreme := buildRequest(r, name, cl, T)
 				if cl.Class.Inputs == "unequal" && len(ig) < 2 {
 					continue // needs two series to disagree
 				}
@@ -277,7 +298,7 @@ func jrGen(args []string) error {
 				}
 				id++
 				enc.Encode(jrRequest{ID: id, Class: cname, Expect: cl.Response.Kind, Model: name, Split: r.Intn(2) == 0, Bytes: b,
-					Given: given, Missing: missing, InGiven: ig, InMiss: im})
+					Given: given, Missing: missing, InGiven: ig, InMiss: im, Extreme: extreme})
 			}
 		}
 	}
